@@ -71,13 +71,13 @@ def run(ctx):
     all_sc = scenarios(env, offset=0)
     mine = [s for i, s in enumerate(all_sc) if i % ctx.nshards == ctx.shard]
     quick = ctx.tier == "quick"
-    per_scenario_budget = (8.0 if quick else 150.0)
+    per_scenario_budget = (5.0 if quick else 150.0)
     for sc in mine:
         for nthreads in sc["threads"]:
             if nthreads == 3:
                 bound = 1 if quick else 2
             else:
-                bound = (1 if sc["wide"] else 2) if quick else (2 if sc["wide"] else 3)
+                bound = 2 if quick else (2 if sc["wide"] else 3)
             base = {"n": 0}
             label = f"{sc['name']}/{nthreads} threads"
 
@@ -120,9 +120,18 @@ def run(ctx):
                         ctx.violation(f"C20:table-holds-another-object:{sc['name']}", f"{label}: the intern table maps the key to another object", case)
 
             deadline = time.time() + per_scenario_budget
-            n, seen, complete = sched.explore(make, sc["traced"], target, check, max_preempt=bound, limit=200000, deadline=deadline)
+            # iterative preemption bounding: every lower bound is completed before the next one starts, so a
+            # time cap can only truncate the highest bound
+            n, seen, done = 0, set(), []
+            for bnd in range(1, bound + 1):
+                k, sn, complete = sched.explore(make, sc["traced"], target, check, max_preempt=bnd, limit=200000, deadline=deadline if bnd > 1 else None)
+                n += k
+                seen |= sn
+                done.append(f"bound {bnd}: {'complete' if complete else 'time-capped'} ({k} executions)")
+                if not complete:
+                    break
             ctx.count(f"schedules_enumerated/{label}", n)
-            ctx.cov.setdefault("complete_within_bound", {})[label] = f"bound {bound}: {'complete' if complete else 'time-capped'} ({n} executions)"
+            ctx.cov.setdefault("complete_within_bound", {})[label] = "; ".join(done)
             # seeded random schedules beyond the bound
             rn = sched.random_schedules(make, sc["traced"], target, check, rng, (60 if quick else 4000), seen, deadline=time.time() + per_scenario_budget / 2)
             ctx.count(f"random_schedules/{label}", rn)
